@@ -54,8 +54,9 @@ class CSSParser:
         if loglevel is not None:
             cssutils.log.setLevel(loglevel)
 
-        # remember global setting
-        self.__globalRaising = cssutils.log.raiseExceptions
+        # global setting found when a parse starts, put back when it ends
+        # (a stack: a fetcher may use this parser again during a parse)
+        self.__globalRaising = []
         if raiseExceptions:
             self.__parseRaising = raiseExceptions
         else:
@@ -72,9 +73,12 @@ class CSSParser:
         init parameter ``raiseExceptions``
         """
         if parse:
+            # remember the global setting in effect now, it may have been
+            # changed since this parser was created
+            self.__globalRaising.append(cssutils.log.raiseExceptions)
             cssutils.log.raiseExceptions = self.__parseRaising
         else:
-            cssutils.log.raiseExceptions = self.__globalRaising
+            cssutils.log.raiseExceptions = self.__globalRaising.pop()
 
     def parseStyle(self, cssText, encoding='utf-8', validate=None):
         """Parse given `cssText` which is assumed to be the content of
